@@ -4,6 +4,7 @@
 From Coq Require Import Lia.
 From RM Require Import C08.Model C08.Proofs C03.Model C03.Proofs C03.ArgModel C03.ArgProofs C03.Compose.
 From RM Require Import C03.FetchModel C03.FetchProofs.
+From RM Require Import C03.ProcessModel C03.ProcessProofs.
 From RM Require Gen.C03Sites C03.SitesTie.
 From RM Require C11.Model C11.Proofs2 C11.Proofs5.
 From RM Require C05.Model C05.Proofs.
@@ -346,4 +347,115 @@ Example c03_nonvacuous_read_u64 :
   wf_regions rs /\ read_u64_at rs 4097 = Some 650777868590383874 /\ read_u64_at rs 4098 = None.
 Proof.
   split; [intros r [H|[]]; subst r; unfold wf_region; cbn; lia|]. split; vm_compute; reflexivity.
+Qed.
+
+(* ==================================================================== round 5 *)
+(* ---- the top-level control flow of MinidumpInfo::into_process_state (C03/ProcessModel.v) composed with C05's walker:
+   for EVERY thread list (any number of threads, duplicate ids, threads without context / without stack), every memory
+   list the readers can build, every exception / breakpad-info combination and every CPU, in both profiles:
+   the whole thread loop returns — no Panic, and no OutOfFuel with the per-thread fuel |chosen stack memory| + 3 that the
+   model itself computes — and for every thread-list entry t the call stack o at the same index satisfies [thread_post]:
+     same thread id; CallStackInfo as the first pass decided;
+     #frames <= (bytes of the stack memory CHOSEN for the thread by the probe logic) + 2;
+     no frames without a context, else the context frame of the SELECTED context first;
+     every frame's instruction is a u64; one unloaded-module offset list per frame;
+   and `requesting_thread`, when set, indexes into the result. *)
+Theorem c03_process_threads_total : forall p cpu a os module_at max_module_addr cfi_walk instr_valid pi,
+  C05.Proofs.arch_ok a -> input_ok a pi -> cfi_contract a cfi_walk ->
+  exists outs,
+    process_threads p cpu a os module_at max_module_addr cfi_walk instr_valid pi = Ret (outs, requesting_index pi) /\
+    Forall2 (thread_post pi) (pi_threads pi) outs /\
+    (forall i, requesting_index pi = Some i -> (i < length outs)%nat).
+Proof. exact process_threads_total. Qed.
+Print Assumptions c03_process_threads_total.
+
+(* ---- C03 for the modelled pipeline, full strength: terminates, never panics, frame bound, always renders — for ALL threads.
+   On top of c03_process_threads_total: `self.threads[requesting_thread]` of print / print_json cannot index out of bounds,
+   and every frame of every thread passes the printers' address arithmetic (module offset, unloaded-module offsets,
+   function and source-line offsets of whatever fill_symbol (C11) returned inside the module the C08 lookup found) without
+   a trap, in either profile [pr] of the printing code.  Not inside this statement (search harness only): tokio's
+   scheduling of the per-thread futures, the disassembler, serde_json, the text formatting itself. *)
+Theorem c03_process_total : forall p cpu a os module_at max_module_addr cfi_walk instr_valid pi,
+  C05.Proofs.arch_ok a -> input_ok a pi -> cfi_contract a cfi_walk ->
+  exists outs,
+    process_threads p cpu a os module_at max_module_addr cfi_walk instr_valid pi = Ret (outs, requesting_index pi) /\
+    Forall2 (thread_post pi) (pi_threads pi) outs /\
+    (exists r, requesting_stack p cpu a os module_at max_module_addr cfi_walk instr_valid pi = Ret r) /\
+    forall o f, In o outs -> In f (o_frames o) ->
+      forall pr q rf mods, wf_mods mods -> C11.Proofs2.wf_file rf ->
+        (exists x, module_offset pr mods (C05.Model.f_instr f) = Ret x) /\
+        (exists l, unloaded_offsets pr mods (C05.Model.f_instr f) = Ret l) /\
+        forall i m so,
+          rm_get (module_table mods) (C05.Model.f_instr f) = Some i -> nth_error mods (Z.to_nat i) = Some m ->
+          C11.Model.symbolize q rf (fst m) (C05.Model.f_instr f) = Ret so ->
+          (exists x, text_frame_offset pr (frame_of (C05.Model.f_instr f) (fst m) so) = Ret x) /\
+          (exists y, json_frame_offsets pr (frame_of (C05.Model.f_instr f) (fst m) so) = Ret y).
+Proof. exact process_total. Qed.
+Print Assumptions c03_process_total.
+
+(* ---- the stack memory a thread is walked on is never a third region: it is what MinidumpThread::stack_memory returns, or
+   (only when a context was selected and the memory list has a region at its stack pointer) that region; and the thread's
+   own memory is kept whenever it holds the 8 probe bytes at the stack pointer *)
+Theorem c03_stack_memory_choice : forall mem t c,
+  (choose_stack_memory mem t c = thread_stack_memory mem t \/
+   exists r v, c = Some (r, v) /\ choose_stack_memory mem t c = memory_at mem (C05.Model.r_sp r) /\
+               memory_at mem (C05.Model.r_sp r) <> None) /\
+  (forall r v m, c = Some (r, v) -> thread_stack_memory mem t = Some m ->
+     region_reads m STACK_PROBE_BYTES (C05.Model.r_sp r) = true -> choose_stack_memory mem t c = Some m).
+Proof.
+  intros mem t c. split; [exact (choose_stack_cases mem t c)|].
+  intros r v m Hc. subst c. exact (choose_stack_keeps_own mem t r v m).
+Qed.
+Print Assumptions c03_stack_memory_choice.
+
+(* ---- the first pass computes `requesting_thread` exactly as round 1's model over the thread ids alone *)
+Theorem c03_requesting_index_agrees : forall pi,
+  requesting_index pi =
+  requesting_thread (map th_id (pi_threads pi)) (pi_dump_tid pi) (opt_or (pi_crash_tid pi) (pi_req_tid pi)).
+Proof. exact requesting_index_is_requesting_thread. Qed.
+Print Assumptions c03_requesting_index_agrees.
+
+(* non-vacuity: an amd64 dump with three threads — the crashing one (exception context; its own stack descriptor is empty,
+   start_of_memory_range points at a 16-byte region, the exception context's rsp into another, 32-byte region: that one is
+   chosen and yields a frame-pointer frame), the dump-writer thread (skipped) and a thread without context *)
+Definition nv_z8 (v : Z) : list Z := [v mod 256; (v / 256) mod 256; (v / 65536) mod 256; (v / 16777216) mod 256; 0; 0; 0; 0].
+Definition nv_regA : region := {| r_base := 4096; r_size := 16; r_bytes := repeat 0 16 |}.
+Definition nv_regB : region :=
+  {| r_base := 8192; r_size := 32; r_bytes := repeat 0 8 ++ nv_z8 8216 ++ nv_z8 4199988 ++ repeat 0 8 |}.
+Definition nv_ctx (ip sp fp : Z) : ctx :=
+  ({| C05.Model.r_ip := ip; C05.Model.r_sp := sp; C05.Model.r_fp := fp; C05.Model.r_lr := 0; C05.Model.r_gp := [] |}, C05.Model.VAll).
+Definition nv_input : proc_in :=
+  {| pi_threads := [ {| th_id := 7; th_ctx := Some (nv_ctx 1 4096 0); th_stack := None; th_stack_start := 4096 |};
+                     {| th_id := 9; th_ctx := Some (nv_ctx 2 4096 0); th_stack := Some nv_regA; th_stack_start := 4096 |};
+                     {| th_id := 11; th_ctx := None; th_stack := None; th_stack_start := 0 |} ];
+     pi_dump_tid := Some 9; pi_crash_tid := Some 7; pi_req_tid := Some 11;
+     pi_exc_ctx := Some (nv_ctx 4198400 8192 8200); pi_memory := [nv_regA; nv_regB]; pi_unloaded := [(4194304, 65536)] |}.
+
+Example c03_nonvacuous_process :
+  C05.Proofs.arch_ok C05.Model.amd64 /\ input_ok C05.Model.amd64 nv_input /\
+  cfi_contract C05.Model.amd64 (fun _ _ _ _ => None) /\
+  match process_threads Debug CpuAmd64 C05.Model.amd64 0 (fun _ => None) 0 (fun _ _ _ _ => None) (fun _ => false) nv_input with
+  | Ret ([o1; o2; o3], Some 0%nat) =>
+      map C05.Model.f_instr (o_frames o1) = [4198400; 4199987] /\ o_unloaded o1 = [[4096]; [5683]] /\
+      o_info o2 = InfoDumpThreadSkipped /\ o_frames o2 = [] /\ o_info o3 = InfoMissingContext /\ o_frames o3 = []
+  | _ => False
+  end /\
+  choose_stack_memory (pi_memory nv_input) {| th_id := 7; th_ctx := Some (nv_ctx 1 4096 0); th_stack := None; th_stack_start := 4096 |}
+    (pi_exc_ctx nv_input) = Some nv_regB.
+Proof.
+  split; [exact C05.Proofs.arch_ok_amd64|]. split; [|split; [intros mem callee gc fwd r v H; discriminate|split; [vm_compute; repeat split; reflexivity|vm_compute; reflexivity]]].
+  assert (Hb : forall n, Forall (fun b => 0 <= b < 256) (repeat 0 n)).
+  { intros n. apply Forall_forall. intros x Hx. apply repeat_spec in Hx. subst. lia. }
+  assert (HA : region_ok nv_regA).
+  { split; [unfold wf_region; cbn; lia|exact (Hb 16%nat)]. }
+  assert (HB : region_ok nv_regB).
+  { split; [unfold wf_region; cbn; lia|]. vm_compute. repeat constructor; discriminate. }
+  assert (Hc : forall ip sp fp, 0 <= ip < two64 -> 0 <= sp < two64 -> 0 <= fp < two64 -> ctx_ok C05.Model.amd64 (Some (nv_ctx ip sp fp))).
+  { intros ip sp fp H1 H2 H3 r v E. inversion E; subst. unfold C05.Proofs.regs_wf, C05.Proofs.in_slot. cbn. unfold two64 in *. lia. }
+  split; [intros m [H|[H|[]]]; subst; assumption|].
+  split; [|split; [apply Hc; unfold two64; lia|intros m [H|[]]; subst; cbn; lia]].
+  intros t [H|[H|[H|[]]]]; subst t; cbn [th_ctx th_stack]; (split; [|intros m E; try discriminate; inversion E; subst; assumption]).
+  - apply Hc; unfold two64; lia.
+  - apply Hc; unfold two64; lia.
+  - intros r v E; discriminate.
 Qed.
